@@ -112,14 +112,28 @@ Print Assumptions C10sh_shtoken_total.
 
 (* Calling ShToken until it returns nil (the driver of the correspondence run, and
    what the shell parser's lexer does): it ends within |s|+1 calls, and every call
-   satisfies the law above with respect to the rest the previous call left. *)
+   satisfies the law above with respect to the rest the previous call left
+   (Spec.ShPartition.chain_ok: per token its text, its atoms' texts and the rest
+   after the call). *)
 Theorem C10sh_shtokens_partition :
   forall expr, advance_contract expr ->
   forall s : str,
   exists l in_word' rest,
-    sh_tokens expr s = Ok (l, (in_word', rest)) /\ tokens_chain s l rest.
-Proof. exact sh_tokens_ok. Qed.
+    sh_tokens expr s = Ok (l, (in_word', rest)) /\
+    chain_ok s (map (fun p => (tok_text (fst p), map a_text (tok_atoms (fst p)), snd p)) l) rest.
+Proof. exact sh_tokens_chain_ok. Qed.
 Print Assumptions C10sh_shtokens_partition.
+
+(* the same through the executable specification that the check runs on the
+   implementation's output *)
+Theorem C10sh_shtokens_meet_spec :
+  forall expr, advance_contract expr ->
+  forall s : str,
+  exists l in_word' rest,
+    sh_tokens expr s = Ok (l, (in_word', rest)) /\
+    tokens_ok s (map (fun p => (tok_text (fst p), snd p)) l) rest = true.
+Proof. exact sh_tokens_meet_spec. Qed.
+Print Assumptions C10sh_shtokens_meet_spec.
 
 (* ---------- the hypothesis is satisfiable ---------- *)
 
